@@ -1877,7 +1877,7 @@ fn gen_c14(r: &mut Rng, seed: u64) -> Scenario {
         _ => {}
     }
     let mut mem = file.clone();
-    mem.resize(img.mapped_len as usize, 0);
+    mem.resize((img.mapped_len as usize).max(mem.len()), 0);
     if well_formed && r.coin() {
         if let Some(o) = img.dt_strtab_val_off {
             let vaddr = base + img.dynstr_vaddr;
@@ -1994,7 +1994,7 @@ fn gen_c08(r: &mut Rng, seed: u64) -> Scenario {
             let img = m.image.clone();
             let mut mem = img.file.clone();
             if let Some(o) = img.dt_strtab_val_off {
-                let vaddr = base2 + img.dynstr_off;
+                let vaddr = base2 + img.dynstr_vaddr;
                 mem[o as usize..o as usize + 8].copy_from_slice(&vaddr.to_le_bytes());
             }
             elf_regions(&path, base2, &img, 7171, &mem, &mut b.world.regions);
@@ -2022,7 +2022,7 @@ fn gen_c08(r: &mut Rng, seed: u64) -> Scenario {
         let path = "/usr/lib/libfileonly.so.2.0";
         let mut mem = img.file.clone();
         if let Some(o) = img.dt_strtab_val_off {
-            let vaddr = base + img.dynstr_off;
+            let vaddr = base + img.dynstr_vaddr;
             mem[o as usize..o as usize + 8].copy_from_slice(&vaddr.to_le_bytes());
         }
         for (off, len, perms) in [(0u64, 0x1000u64, "r--p"), (img.text_off, img.text_len, "r-xp"), (img.data_off, 0x1000, "rw-p")] {
